@@ -479,6 +479,10 @@ type exec struct {
 	last     *reply
 	restarts int
 	prevTarget *wctr // target container of the previous event
+	frozenSync bool
+	frozenPods []string // world pod slots listed by a frozen Synchronize
+	frozenCtrs []string // container ids listed by a frozen Synchronize, with their state at freeze time
+	frozenLife map[string]int
 	cutAfter   string // kind of the request a restartcut interrupted
 	addrMark  int               // index into addr where the last event started
 	cfgBefore int               // configuration index before the last event
@@ -686,6 +690,10 @@ func (x *exec) step(ev string) *reply {
 		}
 	case "sync":
 		pods, ctrs := x.runtimeLists()
+		if x.frozenSync {
+			// concurrent delivery: the runtime's lists were fixed when the request was issued (same inputs in every order)
+			pods, ctrs = x.frozenLists()
+		}
 		guard(func() { rp.updates, rp.err = p.Synchronize(ctx, pods, ctrs) })
 		if rp.panic == "" {
 			x.applyUpdates(ev, "update", rp.updates, "")
@@ -1089,4 +1097,42 @@ func (s *snap) key() string {
 		panic(err)
 	}
 	return mc.Hash(string(data))
+}
+
+
+// freezeSync fixes what a later Synchronize will list (used when requests are delivered concurrently).
+func (x *exec) freezeSync() {
+	x.frozenSync = true
+	x.frozenLife = map[string]int{}
+	for _, p := range x.w.pods {
+		if p.life == lifeRunning || p.life == lifeStopped {
+			x.frozenPods = append(x.frozenPods, p.slot)
+		}
+	}
+	for _, c := range x.w.ctrs {
+		if (c.pod.life == lifeRunning || c.pod.life == lifeStopped) && (c.life == lifeCreated || c.life == lifeRunning || c.life == lifeStopped) {
+			x.frozenCtrs = append(x.frozenCtrs, c.slot)
+			x.frozenLife[c.slot] = c.life
+		}
+	}
+}
+
+func (x *exec) frozenLists() ([]*api.PodSandbox, []*api.Container) {
+	var pods []*api.PodSandbox
+	var ctrs []*api.Container
+	for _, slot := range x.frozenPods {
+		pods = append(pods, x.w.pod(slot).nri())
+	}
+	for _, slot := range x.frozenCtrs {
+		c := x.w.ctr(slot)
+		st := api.ContainerState_CONTAINER_CREATED
+		switch x.frozenLife[slot] {
+		case lifeRunning:
+			st = api.ContainerState_CONTAINER_RUNNING
+		case lifeStopped:
+			st = api.ContainerState_CONTAINER_STOPPED
+		}
+		ctrs = append(ctrs, c.nri(st, c.told))
+	}
+	return pods, ctrs
 }
